@@ -28,6 +28,8 @@ ASSUMPTIONS = [
     "a mutant that the library refuses to load is outside the property's quantifier ('for any loadable file')",
     "mutations touch top-level chunks only (embedded projects/effects are exercised through generated files)",
 ]
+# classes of cases that are produced deterministically: their absence is a harness error (see vlib.harness)
+HARD_LABELS = ['fixture']
 REQUIRED_LABELS = {
     "quick": ["fixture", "generated_project", "generated_synth", "cval_out_of_range", "cval_neg_min_out_of_range", "option_bytes", "link_mutation", "pdta_mutation", "generated_metamodule", "user_controller_mapped_to_negative_min"],
     "thorough": ["fixture", "generated_project", "generated_synth", "cval_out_of_range", "cval_neg_min_out_of_range", "option_bytes", "link_mutation", "pdta_mutation", "fixture_cval_sweep"],
